@@ -122,6 +122,11 @@ def gen_stress(rng):
             signals.append({"name": f"inst{k}_o{j}", "w": rng.choice([1, 2, 5]), "signed": False, "init": 0,
                             "mod": "inst", "dom": None, "src": [], "lo": 0, "hi": 0, "op": "inst"})
             outs.append([f"o{j}", len(signals) - 1])
+            sw = signals[-1]["w"]
+            if sw >= 2 and rng.random() < 0.35:
+                # the instance drives only the low bits; the rest of the signal is driven by logic of one module
+                signals[-1]["inst_bits"] = rng.randrange(1, sw)
+                signals[-1]["tail"] = [rng.randrange(nmod), rng.choice(["comb", "sync"]), rng.randrange(nsig)]
             if rng.random() < 0.5:
                 ports.append([len(signals) - 1, "o"])
         itype, iname = rng.choice(["foo", "BAR", "prim.x"]), rng.choice(["u0", "u1", "a", None])
@@ -160,7 +165,8 @@ def gen_stress(rng):
     for _ in range(rng.choice([0, 0, 1, 2])):
         prints.append({"mod": rng.randrange(nmod), "dom": rng.choice(["comb", "sync"]), "kind": rng.choice(["print", "assert", "assume", "cover"]),
                        "text": rng.choice(STRS + ["{{braces}}", "100%"]), "sig": rng.randrange(nsig), "spec": rng.choice(["", "x", "08b", ">6d", "c" , "s"])})
-    return {"modules": modules, "signals": signals, "ports": ports, "instances": instances, "mems": mems, "iob": iob, "prints": prints}
+    return {"modules": modules, "signals": signals, "ports": ports, "instances": instances, "mems": mems, "iob": iob, "prints": prints,
+            "port_form": rng.choice(["auto", "auto", "mixed"])}
 
 
 def build_stress(d):
@@ -225,7 +231,11 @@ def build_stress(d):
             kw["i_" + n] = Const(v[1], v[2]) if v[0] == "const" else sigs[v[1]]
             dirs[n] = "i"
         for n, j in inst["outs"]:
-            kw["o_" + n] = sigs[j]
+            cut = d["signals"][j].get("inst_bits")
+            kw["o_" + n] = sigs[j] if cut is None else sigs[j][:cut]
+            if cut is not None:
+                tm, tdom, tsrc = d["signals"][j]["tail"]
+                mods[tm].d[tdom] += sigs[j][cut:].eq(sigs[tsrc])
             dirs[n] = "o"
         foreign.setdefault(inst["type"], {}).update(dirs)
         obj = Instance(inst["type"], **kw)
@@ -316,6 +326,21 @@ def convert_stress(d):
     plist = []
     for s, dr in ports:
         plist.append(s)
+    if d.get("port_form") == "mixed":
+        # a list mixing bare signals with (name, signal, direction) entries whose explicit name is the name of the
+        # bare signal listed just before (the bare one has to be renamed, whatever the order)
+        plist = []
+        prev = None
+        explicit = set()
+        for k, (s, dr) in enumerate(ports):
+            if k % 2 == 1 and prev is not None and prev != "" and prev not in explicit:
+                plist.append((prev, s, dr))
+                explicit.add(prev)            # (explicit names themselves have to be distinct)
+            else:
+                plist.append(s)
+            prev = s.name
+        if not ioports:
+            return rtlil.convert(top, ports=plist, emit_src=False), foreign, sigs
     # explicit directions via dict when all names are distinct, else the list form
     names = [s.name for s, _ in ports]
     if len(set(names)) == len(names) and all(dr is not None for _, dr in ports) and not ioports:
@@ -406,8 +431,9 @@ def check_instances(doc, d, sigs, out, ctx):
                 for n, j in inst["outs"]:
                     bits = c.conns[n]
                     sg = sigs[j]
-                    if len(bits) != len(sg):
-                        why = f"output {n}: {len(bits)} bits for a {len(sg)}-bit signal"
+                    want = d["signals"][j].get("inst_bits") or len(sg)
+                    if len(bits) != want:
+                        why = f"output {n}: {len(bits)} bits for {want} bits of a {len(sg)}-bit signal"
                         break
                     # (the instance output may land on an anonymous wire that reaches the signal's
                     # wire through the hierarchy; the one-driver rule is checked structurally)
